@@ -1,17 +1,217 @@
 """Cooperative stepping of a numba ``prange`` kernel (DESIGN.md section 3.6).
 
-numba's ``parallel=True`` semantics: the prange index space is partitioned among T workers; scalars
-assigned in the loop body are worker-private; arrays are shared.  The simulator reproduces exactly
-that with T real Python threads that each run the kernel's Python source (``.py_func``) on the
-*same* output arrays, with the module's ``prange`` replaced by an iterator over that worker's share
-of the indices.  Threads are parked on a condition variable and released one at a time;
-``sys.settrace`` line events inside the kernel's code object are the pre-emption points and a
-seeded PRNG decides after each line whether to hand the baton to another worker.  Who runs is never
-left to the OS: one seed is one interleaving.
+numba's ``parallel=True`` semantics, as far as a kernel author can rely on them: the function runs on
+one thread up to the ``prange`` loop; there the index space is partitioned among T workers which run the
+loop *body* concurrently; everything bound before the loop (arrays, scalars, scratch buffers) is
+**shared** by the workers, a name that is plainly assigned inside the body is **private** to the
+iteration (initialised from the value it had before the loop, if any), ``x += ...`` on a name bound
+before the loop is a reduction, and the function continues on one thread after the loop (fork/join).
+
+The simulator reproduces exactly that on the kernel's Python source (``.py_func``): the source is
+rewritten so that every ``for i in prange(...)`` becomes a nested function ``body(i)`` plus a call of
+``Stepper.parallel_for``; the prelude therefore really runs once and what it allocates really is one
+object seen by all workers.  ``parallel_for`` partitions the indices (seeded) among T real Python
+threads that are parked on a condition variable and released one at a time; ``sys.settrace`` line
+events inside the body's code object are the pre-emption points and a seeded PRNG decides after each
+line whether to hand the baton to another worker.  ``numba.get_num_threads()`` / ``get_thread_id()``
+inside the kernel answer with the simulated T / worker id.  Who runs is never left to the OS: one seed
+is one interleaving.
 """
+import ast
+import hashlib
+import inspect
 import random
 import sys
+import textwrap
 import threading
+
+_UNSET = object()
+_PRANGE_NAMES = ("prange",)
+
+
+# --------------------------------------------------------------------------- source transformation
+def _is_prange_call(node):
+    if not isinstance(node, ast.Call):
+        return False
+    f = node.func
+    return (isinstance(f, ast.Name) and f.id in _PRANGE_NAMES) or (isinstance(f, ast.Attribute) and f.attr in _PRANGE_NAMES)
+
+
+class _Stores(ast.NodeVisitor):
+    """names bound by a piece of code, split into plain and augmented assignments (nested defs are opaque)"""
+
+    def __init__(self):
+        self.plain, self.aug = set(), set()
+
+    def visit_Name(self, node):
+        if isinstance(node.ctx, (ast.Store, ast.Del)):
+            self.plain.add(node.id)
+
+    def visit_AugAssign(self, node):
+        if isinstance(node.target, ast.Name):
+            self.aug.add(node.target.id)
+        else:
+            self.visit(node.target)
+        self.visit(node.value)
+
+    def visit_FunctionDef(self, node):
+        self.plain.add(node.name)
+
+    visit_AsyncFunctionDef = visit_FunctionDef
+
+    def visit_Lambda(self, node):
+        pass
+
+
+class _ContinueToReturn(ast.NodeTransformer):
+    """``continue`` of the prange loop itself ends the iteration: ``return`` in the body function"""
+
+    def visit_For(self, node):
+        return node      # a nested loop owns its own continue/break
+
+    visit_While = visit_For
+    visit_FunctionDef = visit_For
+
+    def visit_Continue(self, node):
+        return ast.copy_location(ast.Return(value=None), node)
+
+
+class _Rewriter(ast.NodeTransformer):
+    def __init__(self, outer_bound):
+        self.outer_bound = outer_bound     # names bound anywhere in the enclosing function (incl. arguments)
+        self.k = 0
+        self.depth = 0
+
+    def visit_FunctionDef(self, node):
+        if self.depth:                     # helper functions defined inside the kernel are left alone
+            return node
+        self.depth += 1
+        self.generic_visit(node)
+        self.depth -= 1
+        return node
+
+    def visit_For(self, node):
+        if not _is_prange_call(node.iter) or not isinstance(node.target, ast.Name) or node.orelse:
+            self.generic_visit(node)
+            return node
+        self.k += 1
+        name = "__prange_body_%d" % self.k
+        # nested prange loops run serially inside their iteration (as numba does): rewrite them too, parallel_for
+        # called from a worker simply loops
+        body = []
+        for s in node.body:
+            r = self.visit(s)
+            body.extend(r if isinstance(r, list) else [r])
+        body = [_ContinueToReturn().visit(s) for s in body]
+        st = _Stores()
+        for s in body:
+            st.visit(s)
+        tgt = node.target.id
+        elsewhere = self.outer_bound.get(id(node), set())
+        reductions = sorted((st.aug - st.plain - {tgt}) & elsewhere)
+        firstprivate = sorted(((st.plain | st.aug) - set(reductions) - {tgt}) & elsewhere)
+        pre = []
+        if reductions:
+            pre.append(ast.Nonlocal(names=list(reductions)))
+        args = ast.arguments(
+            posonlyargs=[], args=[ast.arg(arg=tgt)] + [ast.arg(arg=n) for n in firstprivate], kwonlyargs=[], kw_defaults=[],
+            defaults=[ast.Call(func=ast.Name(id="__cryosim_fp__", ctx=ast.Load()),
+                               args=[ast.Call(func=ast.Name(id="locals", ctx=ast.Load()), args=[], keywords=[]),
+                                     ast.Constant(value=n)], keywords=[]) for n in firstprivate])
+        fdef = ast.FunctionDef(name=name, args=args, body=pre + body, decorator_list=[], returns=None, type_comment=None)
+        if sys.version_info >= (3, 12):
+            fdef.type_params = []
+        call = ast.Expr(value=ast.Call(func=ast.Name(id="__cryosim_pfor__", ctx=ast.Load()),
+                                       args=[ast.Call(func=ast.Name(id="range", ctx=ast.Load()), args=node.iter.args, keywords=[]),
+                                             ast.Name(id=name, ctx=ast.Load())], keywords=[]))
+        out = [ast.copy_location(fdef, node), ast.copy_location(call, node)]
+        for o in out:
+            ast.fix_missing_locations(o)
+        return out
+
+
+def _bound_outside(fn_node):
+    """for every prange loop: the names the enclosing function binds outside that loop's body"""
+    out = {}
+    args = {a.arg for a in fn_node.args.args + fn_node.args.kwonlyargs + fn_node.args.posonlyargs}
+    if fn_node.args.vararg:
+        args.add(fn_node.args.vararg.arg)
+    if fn_node.args.kwarg:
+        args.add(fn_node.args.kwarg.arg)
+
+    class V(ast.NodeVisitor):
+        def __init__(self):
+            self.loops = []
+
+        def visit_For(self, node):
+            if _is_prange_call(node.iter):
+                self.loops.append(node)
+            self.generic_visit(node)
+
+    v = V()
+    v.visit(fn_node)
+    for loop in v.loops:
+        inside = {id(n) for s in loop.body for n in ast.walk(s)}
+        names = set(args)
+        for n in ast.walk(fn_node):
+            if id(n) in inside:
+                continue
+            if isinstance(n, ast.Name) and isinstance(n.ctx, ast.Store):
+                names.add(n.id)
+        out[id(loop)] = names
+    return out
+
+
+_CACHE = {}
+
+
+def transform(fn):
+    """the kernel's Python function rewritten for fork/join stepping; None when it has no prange loop or no source"""
+    try:
+        src = textwrap.dedent(inspect.getsource(fn))
+    except (OSError, TypeError):
+        return None
+    key = hashlib.sha256(src.encode()).hexdigest()
+    if key in _CACHE:
+        return _CACHE[key]
+    tree = ast.parse(src)
+    fnode = tree.body[0]
+    if not isinstance(fnode, ast.FunctionDef):
+        _CACHE[key] = None
+        return None
+    fnode.decorator_list = []
+    rw = _Rewriter(_bound_outside(fnode))
+    tree = rw.visit(tree)
+    if rw.k == 0:
+        _CACHE[key] = None
+        return None
+    ast.fix_missing_locations(tree)
+    code = compile(tree, "<cryosim stepping of %s>" % getattr(fn, "__name__", "kernel"), "exec")
+    _CACHE[key] = (code, fnode.name, ast.unparse(tree))
+    return _CACHE[key]
+
+
+def _fp(local_vars, name):
+    return local_vars.get(name, _UNSET)
+
+
+class _NumbaProxy:
+    """the kernel's ``numba`` module: thread-count questions are answered by the simulator"""
+
+    def __init__(self, real, stepper):
+        self.__dict__["_real"], self.__dict__["_st"] = real, stepper
+
+    def get_num_threads(self):
+        return self._st.T
+
+    def get_thread_id(self):
+        return getattr(self._st.local, "wid", None) or 0
+
+    def set_num_threads(self, n):
+        return None
+
+    def __getattr__(self, k):
+        return getattr(self._real, k)
 
 
 class Stepper:
@@ -28,15 +228,8 @@ class Stepper:
         self.switches = 0
         self.errors = []
         self.trace_sig = 0                 # rolling hash of (worker, line) pairs: identifies the interleaving
-
-    # ----- prange replacement -----
-    def prange(self, *args):
-        """the worker's share of whatever index space the kernel hands to prange (the space is the kernel's
-        business: a refactoring may iterate over compacted source rows instead of all points)"""
-        wid = getattr(self.local, "wid", None)
-        if wid is None:
-            return range(*args)
-        return iter(self.partition(list(range(*args)))[wid])
+        self.regions = 0                   # parallel regions executed
+        self.mode = None
 
     # ----- scheduling -----
     def _pick(self, exclude=None):
@@ -61,11 +254,11 @@ class Stepper:
                     while self.current != wid:
                         self.cv.wait()
 
-    def _worker(self, wid, code, fn, args):
+    def _worker(self, wid, codes, fn, args):
         self.local.wid = wid
 
         def tracer(frame, event, arg):
-            if frame.f_code is code:
+            if frame.f_code in codes:
                 return local
             return None
 
@@ -80,7 +273,7 @@ class Stepper:
         sys.settrace(tracer)
         try:
             fn(*args)
-        except BaseException as e:  # noqa: BLE001 - reported by run()
+        except BaseException as e:  # noqa: BLE001 - reported by the caller
             self.errors.append((wid, e))
         finally:
             sys.settrace(None)
@@ -90,14 +283,10 @@ class Stepper:
                     self.current = self._pick()
                 self.cv.notify_all()
 
-    def run(self, fn, args, partition):
-        """fn: the kernel's Python function; partition(items) -> list of T index lists (one per worker), a pure
-        function of the items and the step's seed."""
-        code = fn.__code__
-        self.partition = partition
-        self.alive = set(range(self.T))
-        threads = [threading.Thread(target=self._worker, args=(w, code, fn, args), daemon=True)
-                   for w in range(self.T)]
+    def _run_workers(self, codes, jobs):
+        """jobs: one (fn, args) per worker; returns when all have finished"""
+        self.alive = set(range(len(jobs)))
+        threads = [threading.Thread(target=self._worker, args=(w, codes, fn, a), daemon=True) for w, (fn, a) in enumerate(jobs)]
         for t in threads:
             t.start()
         with self.cv:
@@ -109,4 +298,51 @@ class Stepper:
                 raise RuntimeError("stepper: worker did not finish (deadlock in the baton protocol?)")
         if self.errors:
             raise self.errors[0][1]
-        return {"steps": self.steps, "switches": self.switches, "sig": self.trace_sig}
+
+    # ----- fork/join execution of a rewritten kernel -----
+    def parallel_for(self, rng_, body):
+        if getattr(self.local, "wid", None) is not None:      # a prange nested in an iteration runs serially there
+            for i in rng_:
+                body(i)
+            return
+        self.regions += 1
+        shares = self.partition(list(rng_))
+
+        def work(share):
+            for i in share:
+                body(i)
+
+        self._run_workers({body.__code__}, [(work, (sh,)) for sh in shares])
+
+    # ----- legacy mode: every worker runs the whole function on its share (kernels that cannot be rewritten) -----
+    def prange(self, *args):
+        wid = getattr(self.local, "wid", None)
+        if wid is None:
+            return range(*args)
+        return iter(self.partition(list(range(*args)))[wid])
+
+    def run(self, fn, args, partition):
+        """fn: the kernel's Python function; partition(items) -> list of T index lists (one per worker), a pure
+        function of the items and the step's seed."""
+        self.partition = partition
+        tr = transform(fn)
+        if tr is None:
+            self.mode = "whole_function_per_worker"
+            self._run_workers({fn.__code__}, [(fn, args)] * self.T)
+        else:
+            self.mode = "fork_join"
+            code, name, _src = tr
+            g = dict(fn.__globals__)
+            g["__cryosim_pfor__"] = self.parallel_for
+            g["__cryosim_fp__"] = _fp
+            import numba as _nb
+            for k, v in list(g.items()):
+                if v is _nb:
+                    g[k] = _NumbaProxy(_nb, self)
+                elif v is getattr(_nb, "get_num_threads", None):
+                    g[k] = lambda: self.T
+                elif v is getattr(_nb, "get_thread_id", None):
+                    g[k] = lambda: getattr(self.local, "wid", None) or 0
+            exec(code, g)
+            g[name](*args)
+        return {"steps": self.steps, "switches": self.switches, "sig": self.trace_sig, "regions": self.regions, "mode": self.mode}
